@@ -5,7 +5,7 @@ from fw import Corr, Failure, cz, cbool, clist, copt
 
 TITLE = 'Bus, buffer and node-id allocation is safe and complete'
 TRANSLATED = ['Gen_builtins']          # props/C16.v evaluates the regenerated py_wrap at the node-id wrap boundary (Example)
-MODEL_TARGETS = ['model/Alloc.vo', 'model/NodeId.vo']
+MODEL_TARGETS = ['model/Alloc.vo', 'model/NodeId.vo', 'model/AllocReserve.vo']
 ALLOWED_AXIOMS = []
 TRUSTED = [
     'hand-written models coq/model/Alloc.v (ContiguousBlockAllocator) and coq/model/NodeId.v (NodeIDAllocator), tied to '
@@ -14,8 +14,9 @@ TRUSTED = [
     'CPython dict insertion order, list indexing (negative indices), set membership by identity',
     'server.py partition arithmetic transcribed as Alloc.partition and compared with the allocators Server builds in NRT mode',
 ]
-ASSUMES = ['alloc is called with n >= 1 and free with an address inside the client partition (outside: IndexError or Python negative indexing, modelled, not covered by the theorems)',
-           'public reserve() is not in the alphabet of the property']
+ASSUMES = ['alloc is called with n >= 0 (n < 0 is modelled and refuted: theorem alloc_negative_size_breaks_safety); free with any integer',
+           'public reserve() is not called anywhere in sc3 and is not in the alphabet of the property (modelled in AllocReserve.v; '
+           'theorem reserve_releases_live_predecessor shows it is unsafe)']
 
 SIG_F1 = 'C16:find_next-absolute-index-vs-relative-size'
 SIG_FOREIGN = 'C16:free-below-offset-negative-index'
@@ -39,12 +40,15 @@ def gen_case(rng, malformed=False):
             ops.append(['fl', rng.randrange(1000)])
         elif r < 0.93:
             ops.append(['fd'])
-        else:
+        elif r < 0.965:
             ops.append(['f', off + rng.randrange(0, size)])        # inside the partition, mostly never allocated
+        elif r < 0.99:                                             # outside the partition: ignored by free()
+            ops.append(['f', rng.choice([off - 1, off + size, off - size, off - size - 1, off + 5 * size, -3, off - 2, off + size + 1])])
+        else:
+            ops.append(['a', 0, rng.randrange(1000)])              # alloc(0)
     if malformed:
         k = rng.randrange(len(ops) + 1)
-        bad = rng.choice([['a', 0, 1], ['a', -1, 1], ['a', size * 2, 0], ['f', off - 1], ['f', off + size], ['f', off - size],
-                          ['f', off - size - 1], ['f', off + 5 * size], ['f', -3]])
+        bad = rng.choice([['a', -1, 1], ['a', -2, 0], ['a', -size, 0]])
         ops = ops[:k] + [bad]          # outside the property's alphabet: compared informally, ends the history
         if rng.random() < 0.15:
             pos = size + rng.choice([0, 1])      # constructor fails
@@ -99,19 +103,36 @@ def correspond(ctx):
             node_cases.append({'user': u, 'init': it, 'start': None, 'count': rng.randint(1, 12)})
             node_cases.append({'user': u, 'init': it, 'start': 67108863 - rng.randint(0, 6), 'count': rng.randint(2, 14)})
     node_cases.append({'user': 32, 'init': 1000, 'start': None, 'count': 1})
-    res = ctx.impl('c16_alloc', {'cases': cases, 'node': node_cases, 'probe_foreign': True})
+    # public reserve(): not in the property's alphabet (no caller in sc3); compared with model/AllocReserve.v informally
+    rcases = []
+    for _ in range(ctx.n(150, 1500)):
+        size = rng.choice([4, 6, 8, 12, 16])
+        pos = rng.choice([0, 0, 1])
+        off = rng.choice([0, 0, 0, size, 5])
+        rops = []
+        for _ in range(rng.randint(1, 8)):
+            r = rng.random()
+            if r < 0.4:
+                rops.append(['a', rng.choice([1, 1, 2, 3, 4]), rng.randrange(1000)])
+            elif r < 0.6:
+                rops.append(['f', off + rng.randrange(size)])
+            else:
+                rops.append(['r', off + rng.randrange(size), rng.choice([1, 1, 2, 3])])
+        rcases.append({'size': size, 'pos': pos, 'off': off, 'ops': rops})
+    res = ctx.impl('c16_alloc', {'cases': cases, 'node': node_cases, 'probe_foreign': True,
+                                 'reserve_cases': rcases, 'probe_reserve': True})
     items, conc, informal = [], [], []
     for k, (case, ops, entries) in enumerate(zip(cases, res['ops'], res['cases'])):
         cops_all = concrete(ops, entries)
         lo_, hi_ = case['off'], case['off'] + case['size']
         cut = len(cops_all)
         for j, o in enumerate(cops_all):
-            if (o[0] == 'a' and o[1] < 1) or (o[0] == 'f' and not lo_ <= o[1] < hi_):
+            if o[0] == 'a' and o[1] < 0:
                 cut = j
                 break
         init_failed = not (0 <= case['pos'] < case['size'])
         if cut < len(cops_all) or init_failed:
-            c.count('outside-alphabet:' + ('constructor' if init_failed else 'alloc n<1' if cops_all[cut][0] == 'a' else 'free outside partition'))
+            c.count('outside-alphabet:' + ('constructor' if init_failed else 'alloc n<0'))
             informal.append('((%s, %s, %s), %s, %s)' % (cz(case['size']), cz(case['pos']), cz(case['off']), coq_ops(cops_all),
                                                       coq_entries(entries)))
         if init_failed:
@@ -129,7 +150,7 @@ def correspond(ctx):
         alias_reported = False
         prev_cells = 1
         for o, e in zip(cops, entries):
-            c.count('op:' + ('alloc' if o[0] == 'a' else 'free'))
+            c.count('op:' + (('alloc' if o[1] >= 1 else 'alloc(0)') if o[0] == 'a' else 'free' if lo_ <= o[1] < hi_ else 'free outside partition'))
             c.count('result:' + {0: 'none' if o[0] == 'a' else 'free-returned', 1: 'address', 2: 'IndexError', 3: 'AttributeError'}.get(e[0], 'other-exception'))
             if e[0] < 2:
                 if o[0] == 'f' and len(e[3]) < prev_cells:
@@ -151,8 +172,8 @@ def correspond(ctx):
     c.evaluations = sum(len(x) for x in res['cases'])
     if informal:
         ibad, ierrs = fw.check_shards(ctx, 'hist_informal', HEADER, informal, body, shard=60)
-        c.notes.append('operations outside the property alphabet (alloc n<1, free outside the partition, constructor with pos>=size): '
-                       '%d histories, implementation differs from the line-by-line model (IndexError / Python negative indexing) in %d (informational, not a failure)' % (len(informal), len(ibad) + len(ierrs)))
+        c.notes.append('operations outside the verified alphabet (alloc n<0, constructor with pos>=size): '
+                       '%d histories, implementation differs from the line-by-line model in %d (informational, not a failure)' % (len(informal), len(ibad) + len(ierrs)))
     for e in errs:
         c.failures.append(Failure('correspondence', 'coq evaluation of history cases failed: ' + e))
     # classify disagreements: does the implementation behave like the unrepaired _find_next ?
@@ -182,6 +203,30 @@ def correspond(ctx):
             b['size'], b['pos'], b['off'], b['ops'], b['why']), signature=SIG_FOREIGN, replay=b, found_input=True,
             theorem='alloc_disjoint_from_live (its hypothesis "free only inside the partition" is not enforced by free())'))
     c.count('probe:foreign-free', 1)
+
+    # reserve(): informational
+    ritems = []
+    for case, ops, entries in zip(rcases, res.get('reserve_ops', []), res.get('reserve_cases', [])):
+        cops = clist(['RA %s %s' % (cz(o[1]), cz(e[5] if e[5] is not None else 0)) if o[0] == 'a' else
+                      'RF %s' % cz(o[1]) if o[0] == 'f' else 'RR %s %s' % (cz(o[1]), cz(o[2])) for o, e in zip(ops, entries)])
+        ents = []
+        for e in entries:
+            cells = clist(['(%s, (%s, %s, %s))' % (cz(x[0]), cz(x[1]), cz(x[2]), cbool(x[3])) for x in e[3]])
+            freed = clist(['(%s, %s)' % (cz(k), clist([cz(x) for x in s])) for k, s in e[4]])
+            ents.append('(%s, %s, (%s, %s, %s))' % (cz(e[0]), cz(e[1]), cz(e[2]), cells, freed))
+            c.count('reserve:' + {0: 'none', 1: 'block', 2: 'IndexError', 3: 'AttributeError'}.get(e[0], 'other'))
+        ritems.append('((%s, %s, %s), (%s : list opr), (%s : list entry))' % (cz(case['size']), cz(case['pos']), cz(case['off']), cops, clist(ents)))
+    if ritems:
+        rbad, rerrs = fw.check_shards(ctx, 'reserve', HEADER + 'Require Import SC3.model.AllocReserve.\n', ritems,
+                                      'Eval vm_compute in bad_idx (check_case_r true) cases.', shard=60)
+        c.notes.append('public reserve() (no caller in sc3, outside the property): %d histories with reserve ops, implementation differs from '
+                       'model/AllocReserve.v (reserve as in the snapshot) in %d, coq errors %d (informational)' % (len(ritems), len(rbad), len(rerrs)))
+    rp = res.get('reserve_probe')
+    if rp:
+        c.notes.append('reserve(2,1) after alloc(2), alloc(2): %s' % rp)
+        if rp.get('corrupts'):
+            c.known_demonstrated.append(('C16:reserve-releases-live-predecessor',
+                                         'reserve() on a live block start raises and releases the live predecessor (theorem reserve_releases_live_predecessor)'))
 
     # node ids
     nitems, nidx = [], []
@@ -264,7 +309,7 @@ def correspond(ctx):
         sc, which, case = sinfo[i]
         c.failures.append(Failure('correspondence', 'model and implementation disagree on the %s allocator built by Server for client %d (options %s): allocator-level history %s' % (
             which, sc['client'], sc['opts'], case), replay={'server_case': sc, 'allocator': which, 'case': case}))
-    c.rule = ('histories of alloc(n)/free(addr)/double free/free of never-allocated and out-of-partition addresses on the real '
+    c.rule = ('histories of alloc(n>=0)/free(addr)/double free/free of never-allocated and out-of-partition addresses on the real '
               'ContiguousBlockAllocator (sizes 4..64, reserved 0..3, client offsets 0..3*size plus an io offset 0..7; bi.choice replaced by a '
               'recorded deterministic choice fed to the model as its oracle); after EVERY operation the return value, top, every non-None '
               'cell of _array (index, start, size, used) and _freed in dict order are compared with Alloc.trace by vm_compute; the same through '
